@@ -282,6 +282,9 @@ def expandPosition(spacegroup, xyz, sgoffset=[0, 0, 0], eps=None):
         pos = symop(xyz + sgoffset) - sgoffset
         mask = numpy.logical_or(pos < 0.0, pos >= 1.0)
         pos[mask] -= numpy.floor(pos[mask])
+        # a tiny negative coordinate folds to exactly 1.0 due to round-off,
+        # which is the same site as 0.0
+        pos[pos >= 1.0] = 0.0
         tpl = pos2tuple(pos)
         if tpl not in site_symops:
             pos_is_new = True
